@@ -179,6 +179,9 @@ def _plain(w):
 
 
 def draw_cfg(st):
+    if st.choose(60, "fork_midwrite") == 59:
+        return {"world": "threads", "fork_midwrite": True, "fm_delay": st.choose(12, "fm_delay"),
+                "fm_msgs": 2 + st.choose(4, "fm_msgs"), "fm_switch": st.choose(2, "fm_switch")}
     world = ["seq", "threads"][st.weighted([80, 20], "world")]
     cfg = {
         "world": world,
@@ -205,6 +208,11 @@ def draw_cfg(st):
     }
     if cfg["p_io_error"] and st.choose(3, "io-threads") != 2:
         cfg["world"] = world = "seq"
+    # the first-registered file gets closed under its destination in the middle of the run (log rotation that
+    # forgot remove_destination): its destination fails from then on, every other file still gets every line
+    if not cfg["p_io_error"] and st.choose(8, "close_first") == 7:
+        cfg["w_destop"] = 2
+        cfg["close_first"] = True
     if not cfg["custom_default"]:
         cfg["bad_kinds"] = [k for k in RICH if "custom" not in k]
     if world == "threads":
@@ -214,8 +222,16 @@ def draw_cfg(st):
     return cfg
 
 
+def op_close_first(interp, op, env):
+    rc = interp.rc
+    if not rc.fbin.closed:
+        rc.fbin.close()
+        rc.count_fault("file_closed_under_destination")
+
+
 def setup(rc, interp):
     e = rc.eliot
+    rc.custom_ops["destop"] = op_close_first
     kw = {"json_default": my_default} if rc.cfg["custom_default"] else {}
     rc.fbin = make_simfile(rc.cfg["bin_base"], "bin", text=False, fault=rc.dec.stream("fault"),
                            p_io_error=rc.cfg.get("p_io_error", 0.0), stats=rc.faults)
@@ -244,8 +260,101 @@ def setup(rc, interp):
     rc.sched.observers.append(observer)
 
 
+def run_fork_midwrite(seed, dec, cfg):
+    """A process forks while another of its threads is somewhere inside a logging call (in the write, between
+    write and flush, holding whatever the implementation holds there).  The child has only the forking thread;
+    a message it logs must still get its line.  Real os.fork() out of a simulated THREADS run; the child is
+    given 3 s (SIGALRM) -- a child that waits for something only a thread of the parent could release is killed
+    by it, and that is the violation."""
+    import os
+    import signal
+    from esim import seams
+    from esim.sched import Sched, SimAbort
+    rc = RunCtx(ID, seed, dec, cfg)
+    e = rc.eliot
+    s = Sched(dec.stream("sched"), p_switch=[0.3, 0.6][cfg["fm_switch"]], gran="line", max_steps=200000,
+              traced=["_output.py"])
+    rc.sched = s
+    rc.clock = seams.begin_run(seed)
+    f = SimFile("log")
+    res = {}
+
+    def writer():
+        for i in range(cfg["fm_msgs"]):
+            e.log_message(message_type="c10:w", i=i)
+
+    def forker():
+        for _ in range(cfg["fm_delay"]):
+            s.force_yield("forker-wait")
+        r, w = os.pipe()
+        pid = os.fork()
+        if pid == 0:
+            status = 3
+            try:
+                os.close(r)
+                signal.signal(signal.SIGALRM, signal.SIG_DFL)
+                signal.alarm(3)
+                s.p_switch = 0.0
+                del s.observers[:]
+                f2 = SimFile("child-log")
+                e.add_destinations(e.FileDestination(file=f2))
+                e.log_message(message_type="c10:child", n=1)
+                ok = f2.os_cache.count(b"\n") >= 1 and b"c10:child" in f2.os_cache
+                os.write(w, b"ok" if ok else b"no-line")
+                status = 0
+            except BaseException as ex:  # noqa
+                try:
+                    os.write(w, ("raised %s" % type(ex).__name__).encode())
+                except Exception:  # noqa
+                    pass
+                status = 4
+            finally:
+                os._exit(status)
+        os.close(w)
+        buf = b""
+        while True:
+            chunk = os.read(r, 4096)
+            if not chunk:
+                break
+            buf += chunk
+        os.close(r)
+        _pid, st_ = os.waitpid(pid, 0)
+        res["said"] = buf.decode("ascii", "replace")
+        res["signaled"] = os.WTERMSIG(st_) if os.WIFSIGNALED(st_) else None
+        res["exit"] = os.WEXITSTATUS(st_) if os.WIFEXITED(st_) else None
+        rc.count_fault("real_fork")
+
+    def main():
+        e.add_destinations(e.FileDestination(file=f))
+        wa = s.spawn("W", writer)
+        fa = s.spawn("F", forker)
+        for a in (wa, fa):
+            s.yield_point("join")
+            s.join(a)
+    try:
+        try:
+            s.run_main(main)
+        except SimAbort:
+            pass
+    finally:
+        seams.end_run()
+    if res.get("signaled") is not None:
+        rc.fail("fork_child_blocked", "the child forked while another thread was logging was killed by signal %s "
+                "after 3 s: its own logging call did not return (it said %r)" % (res["signaled"], res.get("said")))
+    elif res and res.get("said") != "ok":
+        rc.fail("fork_child_no_line", "the forked child's message got no line: %r (exit %r)" % (res.get("said"), res.get("exit")))
+    elif s.deadlock or s.abort:
+        rc.fail("no_termination", "run aborted: %s %s" % (s.abort, s.deadlock))
+    prog = {"world": "threads", "actors": [[]], "types": {}}
+    out = base.result(rc, prog, nontrivial=True, distinct_extra=("fork_midwrite", cfg["fm_delay"], cfg["fm_msgs"]))
+    out["sample"] = {"cfg": cfg}
+    return out
+
+
 def run_one(seed, dec):
     cfg = draw_cfg(dec.stream("cfg"))
+    if cfg.get("fork_midwrite"):
+        return run_fork_midwrite(seed, dec, cfg)
     prog = P.generate(dec.stream("prog"), cfg)
     rc = RunCtx(ID, seed, dec, cfg)
     rc.faulty_values = True       # values are descriptors to materialise; the model keeps raw objects
@@ -278,12 +387,15 @@ def oracle_io_faults(rc):
     for c in rc.fbin.calls:
         if c[0] in ("write", "write!"):
             x = c[1]
-            if not x.endswith(b"\n") or b"\n" in x[:-1]:
+            # whole lines only (several threads' lines may share one write call; one thread's line is never
+            # split over two)
+            if not x.endswith(b"\n") or (rc.cfg["world"] == "seq" and b"\n" in x[:-1]):
                 raise Violation(("line_shape", {"faults": True}),
                                 "after an I/O error a write call carried %r" % x[:160])
-            if x in seen and b"destination_failure" not in x:
-                raise Violation(("line_twice", {"faults": True}), "the line %r was written twice" % x[:160])
-            seen.add(x)
+            for ln in x.split(b"\n")[:-1]:
+                if ln in seen and b"destination_failure" not in ln:
+                    raise Violation(("line_twice", {"faults": True}), "the line %r was written twice" % ln[:160])
+                seen.add(ln)
     # what a write call accepted in full stays in the file, in call order
     data = rc.fbin.os_cache + rc.fbin.user_buf
     pos = 0
@@ -298,7 +410,8 @@ def oracle_io_faults(rc):
     n = len(rc.tap.records)
     calls = [c[0] for c in rc.ftxt.calls]
     if rc.cfg["world"] != "seq":
-        if calls.count("write") != n or calls.count("flush") < n:
+        n_lines = sum(c[1].count(b"\n") for c in rc.ftxt.calls if c[0] == "write")
+        if n_lines != n or calls.count("flush") < calls.count("write"):
             raise Violation(("write_discipline", {"faults": True}),
                             "the healthy file got %d messages as %s" % (n, calls[:12]))
     elif [c for c in _squeeze(calls)] != ["write", "flush"] * n:
@@ -308,7 +421,7 @@ def oracle_io_faults(rc):
 
 
 def oracle(rc):
-    if rc.cfg.get("p_io_error"):
+    if rc.cfg.get("p_io_error") or rc.fbin.closed:
         return oracle_io_faults(rc)
     custom_ok = rc.cfg["custom_default"]
     if rc.dirty_seen:
@@ -321,7 +434,14 @@ def oracle(rc):
         # logging call returns (THREADS: counted, and no unflushed data at any quiescent instant, see
         # dirty_seen); further flushes are the implementation's business
         kinds_ = [c[0] for c in f.calls]
-        if kinds_.count("write") != n or kinds_.count("flush") < n:
+        n_lines = sum(c[1].count(b"\n") for c in f.calls if c[0] == "write")
+        if rc.cfg["world"] == "seq":
+            bad = kinds_.count("write") != n or kinds_.count("flush") < n
+        else:
+            # several threads' lines may be handed over in one write call (each line still whole, in a single
+            # write): lines are counted, and every write is followed by a flush
+            bad = n_lines != n or kinds_.count("flush") < kinds_.count("write")
+        if bad:
             raise Violation("write_discipline", "file %s: %d messages but calls %s" % (f.name, n, kinds_[:12]))
         if rc.cfg["world"] == "seq":
             flushed = True
@@ -340,7 +460,7 @@ def oracle(rc):
             if w[0] != "write":
                 continue
             x = w[1]
-            if not x.endswith(b"\n") or b"\n" in x[:-1] or b"\r" in x:
+            if not x.endswith(b"\n") or (rc.cfg["world"] == "seq" and b"\n" in x[:-1]) or b"\r" in x:
                 raise Violation("line_shape", "file %s: a write is not exactly one newline-terminated line: %r" % (
                     f.name, x[:120]))
     if rc.cfg["world"] != "seq":
@@ -389,7 +509,7 @@ def oracle(rc):
             node.start = _reorder_sets(node.start, m)
         elif node.fields is not None:
             node.fields = _reorder_sets(node.fields, m)
-    O.check_forest(msgs, rc.model, order_free=False, lenient=True, require_complete=False)
+    O.check_forest(msgs, rc.model, order_free=False, lenient=True, require_complete=False, status=False)
     return tuple(sorted(kinds))
 
 
